@@ -85,9 +85,10 @@ impl<'tcx> CFormatter<'tcx> {
             hir::Type::Slice(hir::Slice::Strs(encoding)) => {
                 self.diplomat_namespace(
                 match encoding {
-                    StringEncoding::UnvalidatedUtf8 => "OptionStringsView".into(),
+                    // validated and unvalidated UTF-8 share their view types (see fmt_strs_view_name)
+                    StringEncoding::UnvalidatedUtf8 | StringEncoding::Utf8 => "OptionStringsView".into(),
                     StringEncoding::UnvalidatedUtf16 => "OptionStrings16View".into(),
-                    _ => unimplemented!("Utf8 StringEncoding unsupported")
+                    _ => unimplemented!("unknown StringEncoding")
                     }
                 ).to_string()
             },
